@@ -30,6 +30,11 @@ CHECKS = {
    technique="reference-writer header family opened and dumped by the real library and zck_read_header; TLC trace validation against the Header contract (Open/Dump)",
    text="The reference writer emits the bounded family of headers: all overall/chunk hash types x flags x optional elements x 1..4 entries, detached headers, stored/uncompressed sizes at 2^7k, 2^31, 2^32, 2^63, 2^64-1, pairs whose running sum approaches or exceeds 2^63/2^64, count mismatches and empty indexes, over-long / non-canonical / overflowing / unterminated encodings in every integer field, out-of-range values of the int-typed fields, length fields pointing at and over the end, optional-element counts and sizes against the end. Each is opened by the real library; every getter and a chunk iteration are dumped, and zck_read_header -c is run on the accepted ones. TLC accepts the trace through Trace_Header only if an opened header is well-formed, sealed, supported and representable (Open) and every reported value - flags, types, lengths, digests, count, per-chunk number/digests/sizes/start - equals the reference parse as decimal strings (Dump); a negative return of a signed getter counts as an error indication.",
    note="Trusted: TLC, Header.tla, the reference parser/writer (verif/ref.py), the text scraping of zck_read_header output. Bounded family, not all headers."),
+ "C03": dict(
+   category="model_checking", design_ref="DESIGN.md section 6, C03 and section 9",
+   technique="TLC trace validation (Header contract: no action for Crash/Hang/sanitizer report, parsed cursors inside the buffer) of API-call histories and tool runs on sealed adversarial inputs under ASan/UBSan",
+   text="Inputs: the reference writer's header family (every field at its boundary values, every length field pointing at/over the end, re-sealed so that parsing proceeds past the checksum gate) with no body, a zero body and a random body; valid files of every flavour with structure-aware re-sealed mutations (sizes, digests, flags, compression type, count, chunk swaps, body damage, detached forms), raw mutations, special files (dictionary with the zstd dictionary magic) and degenerate inputs. Each is offered, under ASan+UBSan with a watchdog, to a history of about 40 public calls (open, dump, reads, the three validators, chunk data/stored data, missing range + rendering, copy as source and as target, a download callback) in fixed and shuffled order, and to unzck, zck_read_header, zck_gen_zdict and zck_delta_size. The recorded trace is accepted by TLC only if every call returned: Trace_Header has no action for Crash, Hang or a sanitizer report, and requires lead+preface+index+signature sizes of an opened header to lie inside the header buffer. A rejection is re-run alone with a 90 s budget before it is reported.",
+   note="Memory errors as such are observed by ASan/UBSan/signals, not by the specification (DESIGN.md section 9); the TLA+ contract decides 'every call returns' and the cursor discipline. Allocation-failure paths and inputs far from the family are not explored."),
 }
 
 def entry(pid, c):
